@@ -634,8 +634,31 @@ class Stats:
                 setattr(self, f, getattr(self, f) + d.get(f, 0))
 
 
+def cvc5_verdict(smt2_text, timeout_ms=15000):
+    """check an SMT-LIB2 benchmark (as produced by z3) with the cvc5 wheel: 'sat' | 'unsat' | 'unknown' | 'error:...'"""
+    try:
+        import cvc5
+        slv = cvc5.Solver()
+        slv.setOption("tlimit-per", str(timeout_ms))
+        slv.setLogic("ALL")
+        parser = cvc5.InputParser(slv)
+        text = smt2_text.replace("(check-sat)", "")
+        parser.setStringInput(cvc5.InputLanguage.SMT_LIB_2_6, text, "audit")
+        sm = parser.getSymbolManager()
+        while True:
+            cmd = parser.nextCommand()
+            if cmd.isNull():
+                break
+            cmd.invoke(slv, sm)
+        r = slv.checkSat()
+        return "sat" if r.isSat() else "unsat" if r.isUnsat() else "unknown"
+    except Exception as e:        # noqa: BLE001
+        return "error:" + type(e).__name__ + ":" + str(e)[:80]
+
+
 class Explorer:
     MAX_CONCRETIZE = 64
+    audit_every = 0          # > 0: every n-th discharged batch is re-checked with cvc5
 
     def __init__(self, query_timeout_ms=20000):
         self.solver = z3.Solver()
@@ -896,7 +919,27 @@ class Explorer:
                 self.results.append((label, "refuted", {"model": self.witness(), "detail": detail}))
         if not zs:
             return
-        r = self._check(z3.Not(z3.And(*[z for z, _, _ in zs])) if len(zs) > 1 else z3.Not(zs[0][0]))
+        neg = z3.Not(z3.And(*[z for z, _, _ in zs])) if len(zs) > 1 else z3.Not(zs[0][0])
+        r = self._check(neg)
+        if r == z3.unsat and self.audit_every:
+            self._nbatches = getattr(self, "_nbatches", 0) + 1
+            if self._nbatches % self.audit_every == 1:
+                s2 = z3.Solver()
+                s2.add(self.solver.assertions())
+                s2.add(neg)
+                v = cvc5_verdict(s2.to_smt2())
+                self.audit = getattr(self, "audit", {"audited": 0, "agree": 0, "disagree": 0, "inconclusive": 0,
+                                                     "examples": []})
+                self.audit["audited"] += 1
+                if v == "unsat":
+                    self.audit["agree"] += 1
+                elif v == "sat":
+                    self.audit["disagree"] += 1
+                    self.audit["examples"].append([l for _, l, _ in zs][:5])
+                else:
+                    self.audit["inconclusive"] += 1
+                    if len(self.audit["examples"]) < 3:
+                        self.audit["examples"].append(v)
         if r == z3.unsat:
             self.stats.discharged += len(zs)
             seen = set()
